@@ -172,9 +172,21 @@ class PanicSites:
             if dd[0] == "assign" and dd[3]["rv"]["k"] == "discr":
                 tl = {dd[3]["rv"]["pl"]["l"]} | self._root_local(b, {"k": "copy", "pl": {"l": dd[3]["rv"]["pl"]["l"], "p": []}})
                 if tl & locs:
-                    for v, tg in t["targets"]:
-                        if b.dominates(tg, bi) and tg != t["otherwise"]:
-                            return "dominated by a match on the same value"
+                    ty = b.local_ty(dd[3]["rv"]["pl"]["l"]) or ""
+                    ty = ty.lstrip("&").replace("mut ", "")
+                    good_val = 1 if ty.startswith(("std::option::Option<", "Option<", "core::option::Option<")) else 0 if ty.startswith(("std::result::Result<", "Result<", "core::result::Result<")) else None
+                    if good_val is None:
+                        continue
+                    explicit = dict(t["targets"])
+                    bad_targets = {tg for v, tg in t["targets"] if v != good_val}
+                    if good_val in explicit:
+                        good = explicit[good_val]
+                    elif len(explicit) == 1 and (b.term(t["otherwise"]) or {}).get("k") != "unreachable":
+                        good = t["otherwise"]      # two-variant enum: the arm that is not listed is the Some / Ok arm
+                    else:
+                        good = None
+                    if good is not None and good not in bad_targets and b.dominates(good, bi):
+                        return "dominated by the Some/Ok arm of a match on the same value"
         return None
 
     def _contains_guard(self, b, bi, recv, key):
